@@ -167,6 +167,20 @@ def shards(tier, seed):
     return out
 
 
+def opt_shards(tier):
+    """Under python -O: the whole narrow seam with <= 2 candidates and the transform-sensitive documents (default tokenizer)."""
+    text, n = "ab cd ef", 2
+    N = len(text)
+    out = [{"part": "seam", "text": text, "n": n, "first": None}]
+    for k in KINDS:
+        for s in range(N):
+            for e in range(s + 1, N + 1):
+                out.append({"part": "seam", "text": text, "n": n, "first": [k, s, e]})
+    out += [{"part": "docs", "tok": "AC", "depth": 3, "ts": True, "r": r, "n": 4} for r in range(4)]
+    out += [{"part": "docs", "tok": "AC", "depth": 2, **sh} for sh in docspace.shards_for(A12, 2, 1)]
+    return out
+
+
 def _overlap_or_abut(cands):
     for (k1, s1, e1), (k2, s2, e2) in itertools.combinations(cands, 2):
         if max(s1, s2) <= min(e1, e2):
